@@ -13,6 +13,7 @@
  *   ptol <x> | ettol <x> | itlimit <n> | pvalue <x>
  *   merror <n> <f...|-> <nf...> <tr...|->                    ("-" for tr = NULL)
  *   merror off
+ *   dumpmerror                       prints "merrorvec <nf tr> ..." per calibration frequency (or none)
  *   single <pname> <port> <mr> <mc> <cells: per cell, per frequency re im>
  *   double <p1> <p2> <port1> <port2> <mr> <mc> <cells>
  *   through <port1> <port2> <mr> <mc> <cells>
@@ -405,6 +406,18 @@ int main(int argc, char **argv)
 		else for (int i = 0; i < n; ++i) trv[i] = nextd();
 		report("merror", vnacal_new_set_m_error(vnp, havef ? f : NULL, n, nfv,
 			    havetr ? trv : NULL));
+	    }
+
+	} else if (strcmp(op, "dumpmerror") == 0) {
+	    /* the per-calibration-frequency noise model as stored (internal structure) */
+	    if (vnp->vn_m_error_vector == NULL) {
+		printf("merrorvec none\n");
+	    } else {
+		printf("merrorvec");
+		for (int i = 0; i < nf; ++i)
+		    printf(" %.17g %.17g", vnp->vn_m_error_vector[i].vnme_sigma_nf,
+			    vnp->vn_m_error_vector[i].vnme_sigma_tr);
+		printf("\n");
 	    }
 
 	} else if (strcmp(op, "single") == 0) {
